@@ -499,6 +499,43 @@ def covered(exp, d, m, depth=0):
     return False
 
 
+def _disc_names(p, fn, conds):
+    """[(name, value)] for `match opt { Some / None }` decisions: name = the parameter, or the accessor whose result is matched"""
+    out = []
+    for c in conds:
+        if not (isinstance(c, tuple) and len(c) == 2 and isinstance(c[0], tuple) and c[0] and c[0][0] == "disc"):
+            continue
+        key, val = c[0][1], c[1]
+        try:
+            atoms = [a for mono, k in key for a in mono]
+        except (TypeError, ValueError):
+            continue
+        if len(atoms) != 1:
+            continue
+        a = atoms[0]
+        nm = None
+        if a[0] == "p":
+            nm = str(a[2][-1]) if a[2] else fn.param_names().get(a[1])
+        elif a[0] == "call" and p.fns.get(a[1]) is not None:
+            g2 = p.fns[a[1]]
+            nm = (g2.callee_def(g2.blocks[a[2]]["t"]) or {}).get("n")
+        elif a[0] == "f":
+            nm = a[1]
+        if nm:
+            out.append((nm, val))
+    return out
+
+
+def option_misaligned(p, f, comp, oconds, cconds):
+    """the operation decides on an optional operand (`if let Some(ks) = ks_glwe`), the companion on the accessor of the same name of its infos (`infos.ks_glwe_infos()`): a
+    companion path for the absent operand does not have to pay for an operation path on which it is present (size queries are evaluated on infos describing the operands)"""
+    for on, ov in _disc_names(p, f, oconds):
+        for cn, cv in _disc_names(p, comp, cconds):
+            if isinstance(ov, int) and isinstance(cv, int) and ov != cv and (cn.startswith(on) or on.startswith(cn)):
+                return True
+    return False
+
+
 def pair_verdict(p, f, comp, corr, how, pairs, exp):
     """returns (verdict, detail): verdict in covered | uncovered | undecided"""
     g = CFG(f)
@@ -523,6 +560,8 @@ def pair_verdict(p, f, comp, corr, how, pairs, exp):
         unknown += len(dm.unknown)
         for cconds, smonos, spol in sup:
             if any(sc.contradict(a, b) for a in oconds for b in cconds):
+                continue
+            if option_misaligned(p, f, comp, oconds, cconds):
                 continue
             sk = [sc.mono_kinds(sm) for sm in smonos]
             for cand in dm.cands:
@@ -598,6 +637,28 @@ def sc1(p, res):
                         % (f.pretty, ks, what, comp.name), site=f.where(line))
         else:
             res.undec("SC-1", "%s: %s" % (f.pretty, det))
+    # pairs outside mirror form whose uncovered demand has been confirmed insufficient (failing input on record): the monomial is reported while it stays uncovered
+    cpath = os.path.join(os.path.dirname(table_path), "sc1_confirmed.json")
+    confirmed = json.load(open(cpath)) if os.path.exists(cpath) else {}
+    for uid, ent in sorted(confirmed.items()):
+        if uid not in pairs or (uid in frozen and frozen[uid]["verdict"] == "covered"):
+            continue
+        f, comp, corr, how = pairs[uid]
+        v, det = pair_verdict(p, f, comp, corr, how, pairs, exp)
+        if v != "uncovered":
+            res.ok("SC-1", {"op": f.pretty, "companion": comp.name, "formerly_under_declared": ent["monomials"]})
+            continue
+        seen = set()
+        for dk, line, what in det:
+            ks = kinds_str(dk)
+            if ks in seen or ks not in ent["monomials"]:
+                continue
+            seen.add(ks)
+            res.bad("SC-1", f.pretty, "under-declared:%s" % ks,
+                    "%s may hold %s of scratch at once (at `%s`), and no sum of its companion %s contains these terms; confirmed insufficient: %s"
+                    % (f.pretty, ks, what, comp.name, ent["evidence"]), site=f.where(line))
+        if not seen:
+            res.ok("SC-1", {"op": f.pretty, "companion": comp.name, "formerly_under_declared": ent["monomials"]})
     others = [u for u in pairs if u not in frozen or frozen[u]["verdict"] != "covered"]
     res.extra["pairs_not_in_mirror_form"] = len(others)
     for u in others[:60]:
@@ -1101,10 +1162,14 @@ def sc8(p, res, pairs):
         bodies = [(f, sym, flow)]
         for bi, t in f.calls():
             d = f.callee_def(t) or {}
-            if d.get("n", "").startswith("take_") or "tr" in d or not d.get("u", "").startswith("poulpy_"):
+            if d.get("n", "").startswith("take_") or not d.get("u", "").startswith("poulpy_"):
                 continue
-            h = p.fn(d["u"])
-            if h is None or not h.blocks or h.kind == "Closure" or h.impl_uid or h.trait_item:
+            # free helper functions, and internal routines (single resolved target) that have no size query of their own
+            tg = [u for u in p.targets(f, t) if p.fn(u) is not None and p.fn(u).blocks]
+            if len(tg) != 1 or tg[0] in pairs or tg[0] == f.uid:
+                continue
+            h = p.fn(tg[0])
+            if h.kind == "Closure" or not h.uid.startswith(("poulpy_core", "poulpy_bin_fhe", "poulpy_ckks")):
                 continue
             if not any("Scratch<" in f.local_ty(a[1][0])["s"] for a in t["a"] if a[0] in ("c", "m")):
                 continue
